@@ -11,6 +11,28 @@ from contracts.lemmas_z3 import Side, ext, st_cl_def, st_dom
 from contracts.registry import Unit, register
 
 
+def _corollaries(path, C1, C2):
+    """Label-level corollaries of `closure-unchanged` (proved above for an arbitrary object set, hence usable for any set):
+    the family of extents -- and everything defined from it: order, covering relation, joins, meets, the number of concepts --
+    is the same for both tables."""
+    from pyvc.bits import band, bor
+    sub = C1.sets.subset
+    e, f, g = Ints('e f g')
+    isx1 = lambda v: And(C1.is_objset(v), C1.Cl(v) == v)
+    isx2 = lambda v: And(C2.is_objset(v), C2.Cl(v) == v)
+    x = Int('x')
+    path.oblige('corollary/same-domain-iff', 'lemma', C1.is_objset(x) == C2.is_objset(x))       # same number of objects
+    same = lambda v: And(C1.is_objset(v) == C2.is_objset(v), Implies(C1.is_objset(v), C2.Cl(v) == C1.Cl(v)))
+    # instances of the two lemmas just proved (they hold for every object set)
+    U = bor(e, f)
+    path.assume([same(e), same(f), same(g), same(U), same(band(e, f))])
+    path.oblige('corollary/extent-family-unchanged', 'lemma', isx1(e) == isx2(e))
+    path.oblige('corollary/join-unchanged', 'lemma', Implies(And(C1.is_objset(e), C1.is_objset(f), C1.is_objset(U)), C2.Cl(U) == C1.Cl(U)))
+    path.oblige('corollary/meet-unchanged', 'lemma', Implies(And(isx1(e), isx1(f)), isx1(band(e, f)) == isx2(band(e, f))))
+    cov = lambda isx: And(isx(e), isx(f), sub(e, f), e != f, Implies(And(isx(g), sub(e, g), e != g, sub(g, f)), g == f))
+    path.oblige('corollary/cover-condition-unchanged', 'lemma', cov(isx1) == cov(isx2))
+
+
 def _dup_col(kind):
     def make():
         C1, C2 = Ctx('K1.'), Ctx('K2.')
@@ -43,6 +65,8 @@ def _dup_col(kind):
                 path.oblige('up-new-column', 'lemma', bit(C2.Up(A), C1.m) == bit(C1.Up(A), j0))
             ext(path, C2.Cl(A), C1.Cl(A))
             path.oblige('closure-unchanged', 'lemma', C2.Cl(A) == C1.Cl(A))
+            del path.pc[:]          # drop the hypothesis on A: the corollaries use the lemma as instances
+            _corollaries(path, C1, C2)
         return axioms, prove
     return make
 
@@ -81,7 +105,64 @@ def _perm_col():
         path.oblige('intent-relabelled-converse', 'lemma', ForAll([j], Implies(rngm(j), bit(C1.Up(A), j) == bit(C2.Up(A), pinv(j))), patterns=[bit(C1.Up(A), j)]))
         ext(path, C2.Cl(A), C1.Cl(A))
         path.oblige('closure-unchanged', 'lemma', C2.Cl(A) == C1.Cl(A))
+        del path.pc[:]
+        _corollaries(path, C1, C2)
     return axioms, prove
 
 
 register(Unit('lemma.perm_col', None, None, _perm_col, assumptions=['definitions of Up/Dn/Cl for two tables related by a column permutation']))
+
+
+def _transpose():
+    """L-TRANSPOSE: the transposed table has the derivation operators exchanged, hence exactly the dual lattice: (A, B) is a concept
+    of K1 iff (B, A) is a concept of K2; the order is reversed (A <= A' iff Up(A') <= Up(A)); the intent of a join is the meet of the
+    intents and the intent of a meet is the closure of the union of the intents (join and meet exchanged)."""
+    from pyvc.bits import band, bor
+    from contracts.fcbo import is_concept
+    from contracts.lemmas_z3 import st_antitone, st_extensive, st_up_cl, use_galois
+    C1, C2 = Ctx('K1.'), Ctx('K2.')
+    i = Int('i')
+    link = [
+        ('shapes-swapped', And(C2.n == C1.m, C2.m == C1.n)),
+        ('rows-are-the-columns', ForAll([i], Implies(And(0 <= i, i < C1.m), C2.O.other_at(i) == C1.O.self_at(i)), patterns=[C2.O.other_at(i)])),
+        ('columns-are-the-rows', ForAll([i], Implies(And(0 <= i, i < C1.n), C2.O.self_at(i) == C1.O.other_at(i)), patterns=[C2.O.self_at(i)])),
+    ]
+    seen = {str(f) for _, f in C1.axioms()}
+    axioms = C1.axioms() + [('K2.' + n, f) for n, f in C2.axioms() if str(f) not in seen] + link
+
+    def prove(path):
+        A, A2, B = Ints('A A2 B')
+        O1, P1, O2, P2 = Side(C1, 'O'), Side(C1, 'P'), Side(C2, 'O'), Side(C2, 'P')
+        path.oblige('domains-swapped', 'lemma', And(C1.is_propset(B) == C2.is_objset(B), C1.is_objset(A) == C2.is_propset(A)))
+        for S in (O1, P2):
+            path.assume(st_dom(S, A))
+        for S in (P1, O2):
+            path.assume(st_dom(S, B))
+        ext(path, C2.Up(B), C1.Dn(B))
+        path.oblige('up2-is-dn1', 'lemma', Implies(C1.is_propset(B), C2.Up(B) == C1.Dn(B)))
+        ext(path, C2.Dn(A), C1.Up(A))
+        path.oblige('dn2-is-up1', 'lemma', Implies(C1.is_objset(A), C2.Dn(A) == C1.Up(A)))
+        path.oblige('concept-swapped', 'lemma', is_concept(C1, A, B) == is_concept(C2, B, A))
+        # ---- within one table: order reversed on intents, join/meet exchanged
+        del path.pc[:]
+        sub = C1.sets.subset
+        isx = lambda v: And(C1.is_objset(v), C1.Cl(v) == v)
+        path.assume(And(isx(A), isx(A2)))
+        for X in (A, A2, bor(A, A2), band(A, A2)):
+            use_galois(path, O1, X)
+        for Y in (C1.Up(A), C1.Up(A2), bor(C1.Up(A), C1.Up(A2))):
+            use_galois(path, P1, Y)
+        path.assume([st_antitone(O1, A, A2), st_antitone(P1, C1.Up(A2), C1.Up(A))])
+        path.oblige('order-reversed', 'lemma', sub(A, A2) == sub(C1.Up(A2), C1.Up(A)))
+        ext(path, C1.Up(bor(A, A2)), band(C1.Up(A), C1.Up(A2)))
+        path.oblige('union-derivation', 'lemma', C1.Up(bor(A, A2)) == band(C1.Up(A), C1.Up(A2)))
+        path.oblige('intent-of-join-is-meet-of-intents', 'lemma', C1.Up(C1.Cl(bor(A, A2))) == band(C1.Up(A), C1.Up(A2)))
+        BB = bor(C1.Up(A), C1.Up(A2))
+        ext(path, C1.Dn(BB), band(A, A2))
+        path.oblige('meet-is-derivation-of-the-union-of-intents', 'lemma', C1.Dn(BB) == band(A, A2))
+        path.oblige('intent-of-meet-is-join-of-intents', 'lemma', C1.Up(band(A, A2)) == C1.Cl2(BB))
+    return axioms, prove
+
+
+register(Unit('lemma.transpose', None, None, _transpose,
+              assumptions=['definitions of Up/Dn/Cl for a table and its transpose (link axioms: shapes swapped, rows = columns); instances of lemma.galois/galois2']))
